@@ -24,8 +24,8 @@ ASSUMPTIONS = ["scope: every automat machine of the client (the thirteen mailbox
                "the cases that call dilate() - the Dilation machines); subchannels are not used by these programs",
                "after the application has observed closure it issues only get_*/close",
                "server `error` replies other than the consequences of a third participant are flagged"]
-FLOORS = {"quick": {"transitions": 60000, "closed_sides": 1000, "dilated_cases": 150, "prompt_race_cases": 50, "api_calls_from_inside_a_notification": 300, "closes_from_the_wordlist_callback": 10, "closes_from_a_reconnecting_status": 15, "api_calls_from_status_updates": 400, "closes_while_offline_before_the_words": 3, "dilate_called_between_peer_dilate0_and_peer_version": 5},
-          "thorough": {"transitions": 3000000, "closed_sides": 50000, "dilated_cases": 8000, "prompt_race_cases": 2500, "api_calls_from_inside_a_notification": 15000, "closes_from_the_wordlist_callback": 500, "closes_from_a_reconnecting_status": 800, "api_calls_from_status_updates": 20000, "closes_while_offline_before_the_words": 100, "dilate_called_between_peer_dilate0_and_peer_version": 150}}
+FLOORS = {"quick": {"closes_from_inside_one_particular_notification": 40, "close_inside_verifier": 3, "close_inside_versions": 2, "transitions": 60000, "closed_sides": 1000, "dilated_cases": 150, "prompt_race_cases": 50, "api_calls_from_inside_a_notification": 300, "closes_from_the_wordlist_callback": 10, "closes_from_a_reconnecting_status": 15, "api_calls_from_status_updates": 400, "closes_while_offline_before_the_words": 3, "dilate_called_between_peer_dilate0_and_peer_version": 5},
+          "thorough": {"closes_from_inside_one_particular_notification": 1000, "close_inside_verifier": 100, "close_inside_versions": 100, "transitions": 3000000, "closed_sides": 50000, "dilated_cases": 8000, "prompt_race_cases": 2500, "api_calls_from_inside_a_notification": 15000, "closes_from_the_wordlist_callback": 500, "closes_from_a_reconnecting_status": 800, "api_calls_from_status_updates": 20000, "closes_while_offline_before_the_words": 100, "dilate_called_between_peer_dilate0_and_peer_version": 150}}
 DOCUMENTED_VERDICTS = ("happy", "LonelyError", "WrongPasswordError", "ServerError", "WelcomeError",
                        "ServerConnectionError")
 WORDS = ["purple", "sausages", "alpha", "beta", "zulu", "absurd"]
@@ -115,8 +115,26 @@ class Prog:
                 # ... and to status updates (Connecting / Connected / code consumed / closed ...)
                 self.app.status_hook = lambda st: self.react("status:" + type(getattr(st, "mailbox_connection", st)).__name__, status=True)
         self.late_code = spec.get("late_code") and name == "B"
+        # an application that is done as soon as it has heard one particular thing, and says so on the spot: close() from
+        # inside that notification (either API flavour)
+        self.close_on_kind = None
+        if spec["seed"] % 4 == 3 and name == "AB"[(spec["seed"] // 4) % 2]:
+            self.close_on_kind = ["code", "key", "verifier", "versions", "msg", "verifier", "welcome", "versions"][(spec["seed"] // 8) % 8]
+            self.app.on_event = self.react
 
     def react(self, kind, always=False, status=False):
+        if kind == self.close_on_kind and not self.in_reaction and not status and self.budget["close"] >= 0 and not self.app.close_calls:
+            self.in_reaction = True
+            try:
+                self.reentrant_calls += 1
+                self.closes_on_kind = getattr(self, "closes_on_kind", 0) + 1
+                self.kind_closed_on = kind
+                self.do_close()
+            finally:
+                self.in_reaction = False
+            return
+        if not self.reactive:
+            return
         if self.in_reaction or (not always and self.rng.random() < 0.5):
             return
         if status:
@@ -545,7 +563,7 @@ def run_case(spec):
     triples = ["%s.%s/%s" % k for k in MON.cov]
     return {"violations": viol,
             "nontrivial": trace_digest(sch) if ntrans >= 25 else None,
-            "counters": {"transitions": ntrans, "api_calls": sum(p.ncalls for p in drv.progs), "api_calls_from_inside_a_notification": sum(p.reentrant_calls for p in drv.progs), "closes_from_the_wordlist_callback": sum(getattr(p, "wordlist_closes", 0) for p in drv.progs), "api_calls_from_status_updates": sum(getattr(p, "status_reactions", 0) for p in drv.progs), "closes_from_a_reconnecting_status": sum(getattr(p, "reconnect_closes", 0) for p in drv.progs),
+            "counters": {"transitions": ntrans, "api_calls": sum(p.ncalls for p in drv.progs), "api_calls_from_inside_a_notification": sum(p.reentrant_calls for p in drv.progs), "closes_from_the_wordlist_callback": sum(getattr(p, "wordlist_closes", 0) for p in drv.progs), "closes_from_inside_one_particular_notification": sum(getattr(p, "closes_on_kind", 0) for p in drv.progs), **{"close_inside_" + p.kind_closed_on: 1 for p in drv.progs if getattr(p, "kind_closed_on", None)}, "api_calls_from_status_updates": sum(getattr(p, "status_reactions", 0) for p in drv.progs), "closes_from_a_reconnecting_status": sum(getattr(p, "reconnect_closes", 0) for p in drv.progs),
                          "closed_sides": sum(int(p.app.closed) for p in drv.progs),
                          "never_closed_sides": sum(int(not p.app.closed) for p in drv.progs),
                          "drops": drv.drops, "third_clients": int(len(drv.progs) > 2),
